@@ -12,6 +12,9 @@ import (
 
 var shuffleSeq atomic.Int64
 
+// Quiet makes Shuffle the identity without asking the explorer (used for follow-up requests that are not explored).
+var Quiet atomic.Bool
+
 // ResetSeq restarts the numbering of shuffle events (call before every execution).
 func ResetSeq() { shuffleSeq.Store(0) }
 
@@ -40,6 +43,9 @@ func perms(n int) [][]int {
 func Shuffle(n int, swap func(i, j int)) {
 	if !vdec.Active() {
 		rand.Shuffle(n, swap)
+		return
+	}
+	if Quiet.Load() {
 		return
 	}
 	k := shuffleSeq.Add(1)
